@@ -98,6 +98,9 @@ theorem b_ite_true (n : Nat) (M : Meths) (env : Env) (c : PExpr) (t e rest : PBl
        | r => r) := by
   rw [exec2B_cons, exec2S_ite, hc]
   simp only [ht, if_true]
+  cases exec2B n M env t with
+  | error er => rfl
+  | ok o => cases o <;> rfl
 
 theorem b_ite_false (n : Nat) (M : Meths) (env : Env) (c : PExpr) (t e rest : PBlock) (v : PV)
     (hc : eval M env c = .ok v) (ht : truthy v = .ok false) :
@@ -107,6 +110,9 @@ theorem b_ite_false (n : Nat) (M : Meths) (env : Env) (c : PExpr) (t e rest : PB
        | r => r) := by
   rw [exec2B_cons, exec2S_ite, hc]
   simp only [ht, Bool.false_eq_true, if_false]
+  cases exec2B n M env e with
+  | error er => rfl
+  | ok o => cases o <;> rfl
 
 /-- an `if` without `else` whose test is false -/
 theorem b_ite_skip (n : Nat) (M : Meths) (env : Env) (c : PExpr) (t rest : PBlock) (v : PV)
@@ -133,8 +139,475 @@ theorem w_true (n : Nat) (M : Meths) (env : Env) (c : PExpr) (body : PBlock) (v 
        | r => r) := by
   rw [exec2S_while, hc]
   simp only [ht]
+  cases exec2B n M env body with
+  | error er => rfl
+  | ok o => cases o <;> rfl
 
 end Proc
 open Proc
+
+/-! ## 1. what the environment shows -/
+
+/-- the members of `TransportLayerLogic.RxState` / `TxState` (`enum.Enum` classes: a member is equal to itself only) -/
+def pRxStPV : RxSt → PV
+  | .idle => .sc (.enum "RxState" "IDLE") | .waitCf => .sc (.enum "RxState" "WAIT_CF")
+def pTxStPV : TxSt → PV
+  | .idle => .sc (.enum "TxState" "IDLE") | .waitFc => .sc (.enum "TxState" "WAIT_FC") | .transmitCf => .sc (.enum "TxState" "TRANSMIT_CF")
+  | .sfStandby => .sc (.enum "TxState" "TRANSMIT_SF_STANDBY") | .ffStandby => .sc (.enum "TxState" "TRANSMIT_FF_STANDBY")
+
+/-- the value `ProcessStats(received=, received_processed=, sent=, frame_received=)`: the four counters -/
+def encodeStats (st : Stats) : PV :=
+  .list [.py (.int st.received), .py (.int st.processed), .py (.int st.sent), .py (.int st.frames)]
+
+theorem encodeStats_injective (a b : Stats) (h : encodeStats a = encodeStats b) : a = b := by
+  cases a; cases b
+  simp only [encodeStats, PV.list.injEq, List.cons.injEq, Sc.py.injEq, PyVal.int.injEq, Int.natCast_inj, and_true] at h
+  obtain ⟨h1, h2, h3, h4⟩ := h
+  subst h1 h2 h3 h4
+  rfl
+
+/-- `Optional[CanMessage]` -/
+def optMsgPV (msgPV : CanMsg → PV) : Option CanMsg → PV
+  | none => pnone
+  | some m => msgPV m
+
+/-- what the text of `process` reads of the object (apart from its calls): the two FSM states and the enum / logging constants -/
+structure Reads (env : Env) (s : State) : Prop where
+  rxState : env "self.rx_state" = some (pRxStPV s.rxState)
+  txState : env "self.tx_state" = some (pTxStPV s.txState)
+  rxIdle : env "self.RxState.IDLE" = some (pRxStPV .idle)
+  txIdle : env "self.TxState.IDLE" = some (pTxStPV .idle)
+  txCf : env "self.TxState.TRANSMIT_CF" = some (pTxStPV .transmitCf)
+  txSf : env "self.TxState.TRANSMIT_SF_STANDBY" = some (pTxStPV .sfStandby)
+  txFf : env "self.TxState.TRANSMIT_FF_STANDBY" = some (pTxStPV .ffStandby)
+  debug : env "logging.DEBUG" = some (pint 10)
+
+/-- the parameters and the locals that live across a call: every callee must leave them alone (except the one it binds) -/
+def procLocals : List String :=
+  ["do_rx", "do_tx", "rx_timeout", "run_process", "msg_received", "msg_received_processed", "msg_sent", "nb_frame_received",
+   "first_loop", "msg", "tx_result.immediate_rx_required"]
+
+/-- the names `process` assigns itself (locals, and the two `last_*_state` attributes, which nothing in the model reads) -/
+def procWrites : List String :=
+  ["run_process", "msg_received", "msg_received_processed", "msg_sent", "nb_frame_received", "msg", "start_with_tx", "first_loop",
+   "for_me", "self.last_tx_state", "self.last_rx_state"]
+
+/-- `env'` has the locals of `env`, except those in `ex` -/
+def Kept (ex : List String) (env env' : Env) : Prop := ∀ k, k ∈ procLocals → k ∉ ex → env' k = env k
+
+/-- The callees of `process`, given by the MODEL functions seen through the environment: `R env s` reads "`env` shows `s`".
+    A `CanMessage` object is the value `msgPV m` (never `None`).
+    Each callee is (or will be) tied to its own source by another leaf:
+    * `self.rxfn(rx_timeout)`               : the user's function = the bus of the model (`State.inbox`: an entry `(dt, m)` is returned after
+                                              blocking for `dt`; `None` when the inbox is empty); no source in /repo;
+    * `self._check_timeouts_rx()`           : `check_timeouts_rx_agrees` (LayerRx.lean);
+    * `self.address.is_for_me(msg)`         : `isForMe_agrees` (AddressFns.lean);
+    * `self._process_rx(msg)`               : `process_rx_agrees` (LayerRx.lean; its invariant `RxBufOk` is to be put in `R`);
+    * `self.rate_limiter.update()`          : the rate-limiter region of LayerTxHelpers.lean / MiscTimer.lean;
+    * `self._process_tx()`                  : the regions of LayerTx.lean (being written);
+    * `self.txfn(msg)`                      : the user's function = the event `.tx now m` of the model's log; no source in /repo;
+    * `self.tx_queue.empty()`               : the `queue.Queue` primitive (`qEmpty "#tx_queue"` of LayerQueues.lean);
+    * `self.logger.isEnabledFor(DEBUG)`     : logging is off (the model has no logging);
+    * `self.ProcessStats(...)`              : the constructor of a record of four integers. -/
+structure ProcessCallees (M : Meths) (R : Env → State → Prop) (msgPV : CanMsg → PV) : Prop where
+  msg_ne : ∀ m, msgPV m ≠ pnone
+  /-- the text of `process` reads these -/
+  reads : ∀ env s, R env s → Reads env s
+  /-- an assignment to a local (or to `self.last_*_state`) does not change what the environment shows -/
+  R_set : ∀ env s k v, k ∈ procWrites → R env s → R (env.set k v) s
+  tx_queue_empty : ∀ env s, R env s → M.fn "self.tx_queue.empty" [] env = .ok (pbool s.txQueue.isEmpty)
+  log_off : ∀ env v, M.fn "self.logger.isEnabledFor" [v] env = .ok (pbool false)
+  is_for_me : ∀ env s m, R env s → M.fn "self.address.is_for_me" [msgPV m] env = .ok (pbool (s.addr.rx.isForMe m))
+  stats : ∀ env (a b c d : Nat),
+    M.fn "self.ProcessStats#received#received_processed#sent#frame_received" [pint a, pint b, pint c, pint d] env =
+      .ok (encodeStats ⟨a, b, c, d⟩)
+  /-- `msg = self.rxfn(rx_timeout)`, a frame is there: the clock advances by the blocking delay, the frame leaves the inbox, is logged -/
+  rxfn_some : ∀ env s v dt m rest, R env s → s.inbox = (dt, m) :: rest →
+    ∃ env', M.proc "msg:=self.rxfn" [v] env = .ok env' ∧
+      R env' (({ s with inbox := rest, now := s.now + dt } : State).emit (.rx (s.now + dt) m)) ∧
+      env' "msg" = some (msgPV m) ∧ Kept ["msg"] env env'
+  /-- `msg = self.rxfn(rx_timeout)`, nothing there: `None` -/
+  rxfn_none : ∀ env s v, R env s → s.inbox = [] →
+    ∃ env', M.proc "msg:=self.rxfn" [v] env = .ok env' ∧ R env' (({ s with inbox := [] } : State).emit (.rxNone s.now)) ∧
+      env' "msg" = some pnone ∧ Kept ["msg"] env env'
+  check_timeouts_rx : ∀ env s, R env s →
+    ∃ env', M.proc "self._check_timeouts_rx" [] env = .ok env' ∧ R env' s.checkTimeoutsRx ∧ Kept [] env env'
+  process_rx : ∀ env s m, R env s →
+    ∃ env', M.proc "rx_result:=self._process_rx" [msgPV m] env = .ok env' ∧ R env' (s.processRx m).1 ∧
+      env' "rx_result.immediate_tx_required" = some (pbool (s.processRx m).2.1) ∧
+      env' "rx_result.frame_received" = some (pbool (s.processRx m).2.2) ∧ Kept [] env env'
+  rl_update : ∀ env s, R env s →
+    ∃ env', M.proc "self.rate_limiter.update" [] env = .ok env' ∧ R env' { s with rl := s.rl.update s.cfg.rlWindowNs s.now } ∧
+      Kept [] env env'
+  /-- `tx_result = self._process_tx()` when the model's `processTx` does not raise -/
+  process_tx : ∀ env s, R env s → s.processTx.1.exc = none →
+    ∃ env', M.proc "tx_result:=self._process_tx" [] env = .ok env' ∧ R env' s.processTx.1 ∧
+      env' "tx_result.msg" = some (optMsgPV msgPV s.processTx.2.1) ∧
+      env' "tx_result.immediate_rx_required" = some (pbool s.processTx.2.2) ∧ Kept ["tx_result.immediate_rx_required"] env env'
+  /-- ... and when it does (the model records the exception in `exc` and its callers stop): the call raises it -/
+  process_tx_raises : ∀ env s e, R env s → s.exc = none → s.processTx.1.exc = some e →
+    M.proc "tx_result:=self._process_tx" [] env = .error (.exc e)
+  txfn : ∀ env s m, R env s →
+    ∃ env', M.proc "self.txfn" [msgPV m] env = .ok env' ∧ R env' (s.emit (.tx s.now m)) ∧ Kept [] env env'
+
+/-- the parameters, `run_process` and the four counters -/
+structure Loc (env : Env) (doRx doTx : Bool) (tmo : PV) (run : Bool) (st : Stats) : Prop where
+  doRx : env "do_rx" = some (pbool doRx)
+  doTx : env "do_tx" = some (pbool doTx)
+  tmo : env "rx_timeout" = some tmo
+  run : env "run_process" = some (pbool run)
+  received : env "msg_received" = some (pint st.received)
+  processed : env "msg_received_processed" = some (pint st.processed)
+  sent : env "msg_sent" = some (pint st.sent)
+  frames : env "nb_frame_received" = some (pint st.frames)
+
+namespace Loc
+variable {env env' : Env} {doRx doTx run : Bool} {tmo : PV} {st : Stats}
+
+/-- a callee that keeps the locals -/
+theorem kept {ex : List String} (h : Loc env doRx doTx tmo run st) (hk : Kept ex env env')
+    (hex : ∀ k ∈ ex, k = "first_loop" ∨ k = "msg" ∨ k = "tx_result.immediate_rx_required") : Loc env' doRx doTx tmo run st := by
+  have e : ∀ k, k ∈ procLocals → k ≠ "first_loop" → k ≠ "msg" → k ≠ "tx_result.immediate_rx_required" → env' k = env k := by
+    intro k hk1 h1 h2 h3
+    refine hk k hk1 (fun hin => ?_)
+    rcases hex k hin with h | h | h
+    · exact h1 h
+    · exact h2 h
+    · exact h3 h
+  constructor
+  · rw [e _ (by decide) (by decide) (by decide) (by decide)]; exact h.doRx
+  · rw [e _ (by decide) (by decide) (by decide) (by decide)]; exact h.doTx
+  · rw [e _ (by decide) (by decide) (by decide) (by decide)]; exact h.tmo
+  · rw [e _ (by decide) (by decide) (by decide) (by decide)]; exact h.run
+  · rw [e _ (by decide) (by decide) (by decide) (by decide)]; exact h.received
+  · rw [e _ (by decide) (by decide) (by decide) (by decide)]; exact h.processed
+  · rw [e _ (by decide) (by decide) (by decide) (by decide)]; exact h.sent
+  · rw [e _ (by decide) (by decide) (by decide) (by decide)]; exact h.frames
+
+/-- the keys `Loc` talks about -/
+def keys : List String :=
+  ["do_rx", "do_tx", "rx_timeout", "run_process", "msg_received", "msg_received_processed", "msg_sent", "nb_frame_received"]
+
+theorem set_other (h : Loc env doRx doTx tmo run st) (k : String) (v : PV) (hk : k ∉ keys) : Loc (env.set k v) doRx doTx tmo run st := by
+  simp only [keys, List.mem_cons, List.not_mem_nil, or_false, not_or] at hk
+  obtain ⟨h1, h2, h3, h4, h5, h6, h7, h8⟩ := hk
+  constructor
+  · rw [set_get, if_neg (Ne.symm h1)]; exact h.doRx
+  · rw [set_get, if_neg (Ne.symm h2)]; exact h.doTx
+  · rw [set_get, if_neg (Ne.symm h3)]; exact h.tmo
+  · rw [set_get, if_neg (Ne.symm h4)]; exact h.run
+  · rw [set_get, if_neg (Ne.symm h5)]; exact h.received
+  · rw [set_get, if_neg (Ne.symm h6)]; exact h.processed
+  · rw [set_get, if_neg (Ne.symm h7)]; exact h.sent
+  · rw [set_get, if_neg (Ne.symm h8)]; exact h.frames
+
+theorem set_run (h : Loc env doRx doTx tmo run st) (b : Bool) : Loc (env.set "run_process" (pbool b)) doRx doTx tmo b st := by
+  constructor <;> simp [set_get, h.doRx, h.doTx, h.tmo, h.received, h.processed, h.sent, h.frames]
+
+theorem set_received (h : Loc env doRx doTx tmo run st) (n : Nat) :
+    Loc (env.set "msg_received" (pint n)) doRx doTx tmo run { st with received := n } := by
+  constructor <;> simp [set_get, h.doRx, h.doTx, h.tmo, h.run, h.processed, h.sent, h.frames]
+
+theorem set_processed (h : Loc env doRx doTx tmo run st) (n : Nat) :
+    Loc (env.set "msg_received_processed" (pint n)) doRx doTx tmo run { st with processed := n } := by
+  constructor <;> simp [set_get, h.doRx, h.doTx, h.tmo, h.run, h.received, h.sent, h.frames]
+
+theorem set_sent (h : Loc env doRx doTx tmo run st) (n : Nat) :
+    Loc (env.set "msg_sent" (pint n)) doRx doTx tmo run { st with sent := n } := by
+  constructor <;> simp [set_get, h.doRx, h.doTx, h.tmo, h.run, h.received, h.processed, h.frames]
+
+theorem set_frames (h : Loc env doRx doTx tmo run st) (n : Nat) :
+    Loc (env.set "nb_frame_received" (pint n)) doRx doTx tmo run { st with frames := n } := by
+  constructor <;> simp [set_get, h.doRx, h.doTx, h.tmo, h.run, h.received, h.processed, h.sent]
+
+end Loc
+
+/-- `x += 1` on a counter -/
+theorem eval_incr (M : Meths) (env : Env) (k : String) (n : Nat) (h : env k = some (pint n)) :
+    eval M env (.binop .add (.var k) (.int 1)) = .ok (pint ((n + 1 : Nat) : Int)) := by
+  simp [eval, h]
+
+/-! ## 2. the text of `process`, cut into its blocks -/
+
+/-- the test of both inner loops: `msg is not None or first_loop` -/
+def loopCond : PExpr := .or_ (.isNotNone (.var "msg")) (.var "first_loop")
+
+def logTest : PExpr := .call "self.logger.isEnabledFor" (.cons (.var "logging.DEBUG") .nil)
+
+/-- `msg_sent += 1; if DEBUG: ...; self.txfn(msg)` -/
+def txSendBlk : PBlock :=
+  .cons (.assign "msg_sent" (.binop .add (.var "msg_sent") (.int 1)))
+  (.cons (.ite logTest .nil .nil)
+  (.cons (.expr (.call "self.txfn" (.cons (.var "msg") .nil)))
+  .nil))
+
+def runBreakBlk : PBlock := .cons (.assign "run_process" .tt) (.cons .break_ .nil)
+
+/-- the body of the inner tx loop -/
+def txBody : PBlock :=
+  .cons (.assign "first_loop" .ff)
+  (.cons (.expr (.call "tx_result:=self._process_tx" .nil))
+  (.cons (.assign "msg" (.var "tx_result.msg"))
+  (.cons (.ite (.isNotNone (.var "msg")) txSendBlk .nil)
+  (.cons (.ite (.var "tx_result.immediate_rx_required") runBreakBlk .nil)
+  .nil))))
+
+/-- the dead logging block of the rx loop (never run: logging is off) -/
+def rxLogBlk : PBlock :=
+  .cons (.assign "addr" (.ifexp (.var "msg.is_extended_id") (.call "__format__" (.cons (.var "msg.arbitration_id") .nil))
+    (.call "__format__" (.cons (.var "msg.arbitration_id") .nil))))
+  (.cons (.assign "processed" (.ifexp (.var "for_me") (.strLit "p") (.strLit "i")))
+  .nil)
+
+/-- `msg_received_processed += 1; rx_result = self._process_rx(msg); ...` -/
+def rxForMeBlk : PBlock :=
+  .cons (.assign "msg_received_processed" (.binop .add (.var "msg_received_processed") (.int 1)))
+  (.cons (.expr (.call "rx_result:=self._process_rx" (.cons (.var "msg") .nil)))
+  (.cons (.ite (.var "rx_result.frame_received")
+    (.cons (.assign "nb_frame_received" (.binop .add (.var "nb_frame_received") (.int 1))) .nil) .nil)
+  (.cons (.ite (.var "rx_result.immediate_tx_required") (.cons .break_ .nil) .nil)
+  .nil)))
+
+/-- `do_tx and self.tx_state in (TRANSMIT_CF, TRANSMIT_SF_STANDBY, TRANSMIT_FF_STANDBY)` -/
+def timeDrivenTest : PExpr :=
+  .and_ (.var "do_tx") (.cmp .isIn (.var "self.tx_state")
+    (.lst (.cons (.var "self.TxState.TRANSMIT_CF") (.cons (.var "self.TxState.TRANSMIT_SF_STANDBY")
+      (.cons (.var "self.TxState.TRANSMIT_FF_STANDBY") .nil)))))
+
+/-- the block under `if msg is not None:` in the rx loop -/
+def rxMsgBlk : PBlock :=
+  .cons (.assign "msg_received" (.binop .add (.var "msg_received") (.int 1)))
+  (.cons (.assign "for_me" (.call "self.address.is_for_me" (.cons (.var "msg") .nil)))
+  (.cons (.ite logTest rxLogBlk .nil)
+  (.cons (.ite (.var "for_me") rxForMeBlk .nil)
+  (.cons (.ite timeDrivenTest runBreakBlk .nil)
+  .nil))))
+
+/-- the body of the inner rx loop -/
+def rxBody : PBlock :=
+  .cons (.assign "first_loop" .ff)
+  (.cons (.expr (.call "msg:=self.rxfn" (.cons (.var "rx_timeout") .nil)))
+  (.cons (.expr (.call "self._check_timeouts_rx" .nil))
+  (.cons (.ite (.isNotNone (.var "msg")) rxMsgBlk .nil)
+  .nil)))
+
+def startWithTxExpr : PExpr :=
+  .and_ (.var "do_tx") (.and_ (.not_ (.call "self.tx_queue.empty" .nil))
+    (.and_ (.cmp .eq (.var "self.rx_state") (.var "self.RxState.IDLE")) (.cmp .eq (.var "self.tx_state") (.var "self.TxState.IDLE"))))
+
+def rxPart : PBlock := .cons (.assign "first_loop" .tt) (.cons (.while_ loopCond rxBody) .nil)
+def txPart : PBlock := .cons (.assign "first_loop" .tt) (.cons (.assign "msg" .none) (.cons (.while_ loopCond txBody) .nil))
+
+def logStateBlk : PBlock :=
+  .cons (.ite (.or_ (.cmp .ne (.var "self.last_rx_state") (.var "self.rx_state")) (.cmp .ne (.var "self.last_tx_state") (.var "self.tx_state")))
+    .nil .nil) .nil
+
+/-- the body of the outer loop -/
+def outerBody : PBlock :=
+  .cons (.assign "msg" .none)
+  (.cons (.assign "run_process" .ff)
+  (.cons (.assign "start_with_tx" startWithTxExpr)
+  (.cons (.ite (.var "start_with_tx") (.cons (.assign "run_process" .tt) .nil) .nil)
+  (.cons (.ite (.and_ (.var "do_rx") (.not_ (.var "start_with_tx"))) rxPart .nil)
+  (.cons (.assign "start_with_tx" .ff)
+  (.cons (.expr (.call "self.rate_limiter.update" .nil))
+  (.cons (.ite (.var "do_tx") txPart .nil)
+  (.cons (.ite logTest logStateBlk .nil)
+  (.cons (.assign "self.last_tx_state" (.var "self.tx_state"))
+  (.cons (.assign "self.last_rx_state" (.var "self.rx_state"))
+  .nil))))))))))
+
+def retStats : PStmt :=
+  .ret (.call "self.ProcessStats#received#received_processed#sent#frame_received"
+    (.cons (.var "msg_received") (.cons (.var "msg_received_processed") (.cons (.var "msg_sent") (.cons (.var "nb_frame_received") .nil)))))
+
+/-- the dumped source IS these blocks -/
+theorem process_src : Src.TransportLayerLogic_process =
+    .cons (.assign "run_process" .tt)
+    (.cons (.assign "msg_received" (.int 0))
+    (.cons (.assign "msg_received_processed" (.int 0))
+    (.cons (.assign "msg_sent" (.int 0))
+    (.cons (.assign "nb_frame_received" (.int 0))
+    (.cons (.while_ (.var "run_process") outerBody)
+    (.cons retStats
+    .nil)))))) := rfl
+
+/-! ## 3. the inner tx loop -/
+
+section loops
+variable {M : Meths} {R : Env → State → Prop} {msgPV : CanMsg → PV}
+
+theorem eval_loopCond (M : Meths) (env : Env) (mv : PV) (fl : Bool) (hm : env "msg" = some mv) (hf : env "first_loop" = some (pbool fl)) :
+    eval M env loopCond = .ok (pbool ((mv != pnone) || fl)) := by
+  cases h : (mv != pnone) <;> simp [loopCond, eval, hm, hf, h]
+
+theorem eval_isNotNone (M : Meths) (env : Env) (k : String) (v : PV) (h : env k = some v) :
+    eval M env (.isNotNone (.var k)) = .ok (pbool (v != pnone)) := by
+  simp [eval, h]
+
+theorem eval_logTest (hM : ProcessCallees M R msgPV) (env : Env) (s : State) (hR : R env s) :
+    eval M env logTest = .ok (pbool false) :=
+  fn1 M env _ _ _ _ (by decide) (eval_var M env _ _ (hM.reads env s hR).debug) (hM.log_off env _)
+
+theorem msgPV_bne (hM : ProcessCallees M R msgPV) (m : CanMsg) : (msgPV m != pnone) = true := by
+  simpa using hM.msg_ne m
+
+/-- `msg_sent += 1; if DEBUG: ...; self.txfn(msg)` -/
+theorem txSend_run (hM : ProcessCallees M R msgPV) (env : Env) (s : State) (m : CanMsg) (doRx doTx run : Bool) (tmo : PV) (st : Stats)
+    (hR : R env s) (hL : Loc env doRx doTx tmo run st) (hmsg : env "msg" = some (msgPV m))
+    (hfl : env "first_loop" = some (pbool false)) (imm : Bool) (himm : env "tx_result.immediate_rx_required" = some (pbool imm)) :
+    ∃ env', (∀ k, exec2B (k + 5) M env txSendBlk = .ok (.next env')) ∧ R env' (s.emit (.tx s.now m)) ∧
+      Loc env' doRx doTx tmo run { st with sent := st.sent + 1 } ∧ env' "msg" = some (msgPV m) ∧
+      env' "first_loop" = some (pbool false) ∧ env' "tx_result.immediate_rx_required" = some (pbool imm) := by
+  have hR1 := hM.R_set env s "msg_sent" (pint ((st.sent + 1 : Nat) : Int)) (by decide) hR
+  obtain ⟨e2, p2, r2, k2⟩ := hM.txfn _ s m hR1
+  have hm1 : (env.set "msg_sent" (pint ((st.sent + 1 : Nat) : Int))) "msg" = some (msgPV m) := by simp [set_get, hmsg]
+  refine ⟨e2, ?_, r2, (hL.set_sent (st.sent + 1)).kept k2 (by simp), ?_, ?_, ?_⟩
+  · intro k
+    rw [txSendBlk, b_assign _ _ _ _ _ _ _ (eval_incr M env "msg_sent" st.sent hL.sent),
+      b_ite_skip _ _ _ _ _ _ _ (eval_logTest hM _ s hR1) rfl,
+      b_next _ _ _ e2 _ _ rfl (proc1 M _ e2 _ _ _ (by decide) (eval_var M _ _ _ hm1) p2), exec2B_nil]
+  · rw [k2 _ (by decide) (by simp)]; exact hm1
+  · rw [k2 _ (by decide) (by simp)]; simp [set_get, hfl]
+  · rw [k2 _ (by decide) (by simp)]; simp [set_get, himm]
+
+/-- one pass through the body of the tx loop, `_process_tx` not raising -/
+theorem tx_body (hM : ProcessCallees M R msgPV) (env : Env) (s s1 : State) (out : Option CanMsg) (imm : Bool)
+    (doRx doTx run : Bool) (tmo : PV) (st : Stats)
+    (hR : R env s) (hL : Loc env doRx doTx tmo run st) (hp : s.processTx = (s1, out, imm)) (hexc : s1.exc = none) :
+    ∃ envF, (∀ n, 12 ≤ n → exec2B n M env txBody = .ok (if imm then .brk envF else .next envF)) ∧
+      R envF (match out with | some m => s1.emit (.tx s1.now m) | none => s1) ∧
+      Loc envF doRx doTx tmo (run || imm) { st with sent := match out with | some _ => st.sent + 1 | none => st.sent } ∧
+      envF "msg" = some (optMsgPV msgPV out) ∧ envF "first_loop" = some (pbool false) := by
+  have hR0 := hM.R_set env s "first_loop" (pbool false) (by decide) hR
+  obtain ⟨e1, p1, r1, m1, i1, k1⟩ := hM.process_tx _ s hR0 (by rw [hp]; exact hexc)
+  rw [hp] at r1 m1 i1
+  simp only at r1 m1 i1
+  have L1 : Loc e1 doRx doTx tmo run st := (hL.set_other "first_loop" (pbool false) (by decide)).kept k1 (by simp)
+  have f1 : e1 "first_loop" = some (pbool false) := by rw [k1 _ (by decide) (by simp)]; simp [set_get]
+  -- `msg = tx_result.msg`
+  have hR2 := hM.R_set e1 s1 "msg" (optMsgPV msgPV out) (by decide) r1
+  have L2 : Loc (e1.set "msg" (optMsgPV msgPV out)) doRx doTx tmo run st := L1.set_other "msg" _ (by decide)
+  have f2 : (e1.set "msg" (optMsgPV msgPV out)) "first_loop" = some (pbool false) := by simp [set_get, f1]
+  have i2 : (e1.set "msg" (optMsgPV msgPV out)) "tx_result.immediate_rx_required" = some (pbool imm) := by simp [set_get, i1]
+  have m2 : (e1.set "msg" (optMsgPV msgPV out)) "msg" = some (optMsgPV msgPV out) := by simp [set_get]
+  have head : ∀ j, exec2B (j + 12) M env txBody =
+      exec2B (j + 9) M (e1.set "msg" (optMsgPV msgPV out))
+        (.cons (.ite (.isNotNone (.var "msg")) txSendBlk .nil)
+          (.cons (.ite (.var "tx_result.immediate_rx_required") runBreakBlk .nil) .nil)) := by
+    intro j
+    rw [txBody, b_assign _ _ _ _ _ _ _ (by simp [eval] : eval M env .ff = .ok (pbool false)),
+      b_next _ _ _ e1 _ _ rfl (proc0 M _ e1 _ (by decide) p1),
+      b_assign _ _ _ _ _ _ _ (eval_var M _ _ _ m1)]
+  -- the last statement: `if tx_result.immediate_rx_required: run_process = True; break`
+  have last : ∀ (e3 : Env) (s3 : State) (st3 : Stats), R e3 s3 → Loc e3 doRx doTx tmo run st3 →
+      e3 "tx_result.immediate_rx_required" = some (pbool imm) → e3 "msg" = some (optMsgPV msgPV out) →
+      e3 "first_loop" = some (pbool false) →
+      ∃ envF, (∀ j, exec2B (j + 8) M e3 (.cons (.ite (.var "tx_result.immediate_rx_required") runBreakBlk .nil) .nil) =
+          .ok (if imm then .brk envF else .next envF)) ∧
+        R envF s3 ∧ Loc envF doRx doTx tmo (run || imm) st3 ∧ envF "msg" = some (optMsgPV msgPV out) ∧
+        envF "first_loop" = some (pbool false) := by
+    intro e3 s3 st3 r3 L3 i3 m3 f3
+    cases imm with
+    | false =>
+      refine ⟨e3, ?_, r3, by simpa using L3, m3, f3⟩
+      intro j
+      rw [b_ite_skip _ _ _ _ _ _ _ (eval_var M _ _ _ i3) rfl, exec2B_nil]
+      rfl
+    | true =>
+      refine ⟨e3.set "run_process" (pbool true), ?_, hM.R_set _ _ _ _ (by decide) r3, by simpa using L3.set_run true,
+        by simp [set_get, m3], by simp [set_get, f3]⟩
+      intro j
+      rw [b_ite_true _ _ _ _ _ _ _ _ (eval_var M _ _ _ i3) rfl, runBreakBlk,
+        b_assign _ _ _ _ _ _ _ (by simp [eval] : eval M e3 .tt = .ok (pbool true)), b_break]
+      rfl
+  cases out with
+  | none =>
+    obtain ⟨envF, hrun, rF, LF, mF, fF⟩ := last _ s1 st hR2 L2 i2 m2 f2
+    refine ⟨envF, ?_, rF, LF, mF, fF⟩
+    intro n hn
+    obtain ⟨j, rfl⟩ : ∃ j, n = j + 12 := ⟨n - 12, by omega⟩
+    rw [head, b_ite_skip _ _ _ _ _ _ _ (eval_isNotNone M _ _ _ m2) (by simp [optMsgPV]), hrun]
+  | some m =>
+    obtain ⟨e3, hsend, r3, L3, m3, f3, i3⟩ := txSend_run hM _ s1 m doRx doTx run tmo st hR2 L2 m2 f2 imm i2
+    obtain ⟨envF, hrun, rF, LF, mF, fF⟩ := last e3 _ _ r3 L3 i3 m3 f3
+    refine ⟨envF, ?_, rF, LF, mF, fF⟩
+    intro n hn
+    obtain ⟨j, rfl⟩ : ∃ j, n = j + 12 := ⟨n - 12, by omega⟩
+    rw [head, b_ite_true _ _ _ _ _ _ _ _ (eval_isNotNone M _ _ _ m2) (by simp [optMsgPV, msgPV_bne hM]), hsend]
+    simp only
+    rw [hrun]
+
+/-- one step of the model's tx loop, in the shape of `tx_body` -/
+theorem txLoop_succ (f : Nat) (s s1 : State) (n : Nat) (out : Option CanMsg) (imm : Bool) (hp : s.processTx = (s1, out, imm)) :
+    State.txLoop (f + 1) s n =
+      if s1.exc.isSome then (s1, n, false, false) else
+      if imm then ((match out with | some m => s1.emit (.tx s1.now m) | none => s1), (match out with | some _ => n + 1 | none => n), true, false)
+      else if out.isSome then
+        State.txLoop f (match out with | some m => s1.emit (.tx s1.now m) | none => s1) (match out with | some _ => n + 1 | none => n)
+      else (s1, n, false, false) := by
+  simp only [State.txLoop, hp]
+  cases out <;> simp
+
+/-- **the inner tx loop = `State.txLoop`**: a run of the model with fuel `f` that neither runs out of fuel nor ends with an exception is a run
+    of the `while` (fuel `≥ f + 13`): same final state (through `R`), `msg_sent` = the model's count, `run_process` raised iff the model asks
+    for another pass. -/
+theorem tx_loop_agrees (hM : ProcessCallees M R msgPV) : ∀ (f : Nat) (env : Env) (s : State) (doRx doTx run : Bool) (tmo : PV) (st : Stats)
+    (mv : PV) (fl : Bool) (s' : State) (cnt' : Nat) (run' : Bool),
+    R env s → Loc env doRx doTx tmo run st → env "msg" = some mv → env "first_loop" = some (pbool fl) → ((mv != pnone) || fl) = true →
+    State.txLoop f s st.sent = (s', cnt', run', false) → s'.exc = none →
+    ∃ env', (∀ n, f + 13 ≤ n → exec2S n M env (.while_ loopCond txBody) = .ok (.next env')) ∧ R env' s' ∧
+      Loc env' doRx doTx tmo (run || run') { st with sent := cnt' }
+  | 0, env, s, doRx, doTx, run, tmo, st, mv, fl, s', cnt', run', _, _, _, _, _, h, _ => by
+    simp [State.txLoop] at h
+  | f + 1, env, s, doRx, doTx, run, tmo, st, mv, fl, s', cnt', run', hR, hL, hm, hf, hc, h, hexc => by
+    rcases hp : s.processTx with ⟨s1, out, imm⟩
+    rw [txLoop_succ f s s1 st.sent out imm hp] at h
+    cases he : s1.exc with
+    | some e =>
+      rw [he] at h
+      simp only [Option.isSome_some, if_true, Prod.mk.injEq] at h
+      rw [← h.1, he] at hexc
+      cases hexc
+    | none =>
+      rw [he] at h
+      simp only [Option.isSome_none, Bool.false_eq_true, if_false] at h
+      obtain ⟨envF, hbody, rF, LF, mF, fF⟩ := tx_body hM env s s1 out imm doRx doTx run tmo st hR hL hp he
+      have hcond := eval_loopCond M env mv fl hm hf
+      cases imm with
+      | true =>
+        simp only [if_true, Prod.mk.injEq] at h
+        obtain ⟨h1, h2, h3, -⟩ := h
+        subst h1 h2 h3
+        refine ⟨envF, ?_, rF, LF⟩
+        intro n hn
+        obtain ⟨k, rfl⟩ : ∃ k, n = k + 1 := ⟨n - 1, by omega⟩
+        rw [w_true _ _ _ _ _ _ hcond (by rw [hc]; rfl), hbody k (by omega)]
+        rfl
+      | false =>
+        simp only [Bool.false_eq_true, if_false] at h
+        cases out with
+        | none =>
+          simp only [Option.isSome_none, Bool.false_eq_true, if_false, Prod.mk.injEq] at h
+          obtain ⟨h1, h2, h3, -⟩ := h
+          subst h1 h2 h3
+          refine ⟨envF, ?_, rF, LF⟩
+          intro n hn
+          obtain ⟨k, rfl⟩ : ∃ k, n = k + 2 := ⟨n - 2, by omega⟩
+          rw [w_true _ _ _ _ _ _ hcond (by rw [hc]; rfl), hbody (k + 1) (by omega)]
+          simp only [Bool.false_eq_true, if_false]
+          rw [w_false _ _ _ _ _ _ (eval_loopCond M envF _ _ mF fF) (by simp [optMsgPV])]
+        | some m =>
+          simp only [Option.isSome_some, if_true] at h
+          obtain ⟨env', hrun, r', L'⟩ := tx_loop_agrees hM f envF _ doRx doTx (run || false) tmo _ _ _ s' cnt' run' rF LF mF fF
+            (by simp [optMsgPV, msgPV_bne hM]) h hexc
+          refine ⟨env', ?_, r', by simpa using L'⟩
+          intro n hn
+          obtain ⟨k, rfl⟩ : ∃ k, n = k + 1 := ⟨n - 1, by omega⟩
+          rw [w_true _ _ _ _ _ _ hcond (by rw [hc]; rfl), hbody k (by omega)]
+          simp only [Bool.false_eq_true, if_false]
+          exact hrun k (by omega)
+
+end loops
 
 end Isotp.PyAgree
